@@ -188,6 +188,11 @@ def cls_dollar(m):
             m["kind"], m["template"], m["A"], m["B"], m["got"], m.get("got_args"), m["want"], m.get("want_args"))
 
 
+CLASS_KEYS = {"pkgsplit:not-a-flag:first-character-replaced", "pkgsplit:dash-right-after-flag-character",
+              "pkgsplit:trailing-escaped-blank", "expand-brace:key-by-key-replacement",
+              "expand-dollar:command-output-rescanned"}
+
+
 # --------------------------------------------------------------------------- suites
 
 def suites(tier, sd):
@@ -219,13 +224,13 @@ def suites(tier, sd):
         S.append(dict(name=name, module=module, consts=consts, invs=invs, pkg=pkg, test=test, neg=neg, cls=cls,
                       real=real, cost=cost, post=post))
 
-    add("shell-split", "ShellSplit", shell("split", maxlen=6, prune=4, mod=3), ["LawMalformed", "LawPlain", "EmitSplit"],
+    add("shell-split", "ShellSplit", shell("split", maxlen=6, prune=4, mod=5), ["LawMalformed", "LawPlain", "EmitSplit"],
         "internal/shellparse", "TestVerifC17ShellSplit", neg_shell_split, cls_shell_split, cost=3)
-    add("shell-roundtrip-2x3", "ShellSplit", shell("roundtrip", maxargs=2, arglen=3, prune=5, mod=3), ["LawRoundTrip", "EmitRoundTrip"],
+    add("shell-roundtrip-2x3", "ShellSplit", shell("roundtrip", maxargs=2, arglen=3, prune=5, mod=5), ["LawRoundTrip", "EmitRoundTrip"],
         "internal/shellparse", "TestVerifC17ShellRoundTrip", neg_shell_rt, cls_shell_rt, cost=3)
-    add("pkg-split", "PkgConfigSplit", shell("split", maxlen=6, prune=4, mod=3), ["LawNoLoss", "LawPartsStartWithDash", "EmitSplit"],
+    add("pkg-split", "PkgConfigSplit", shell("split", maxlen=6, prune=4, mod=5), ["LawNoLoss", "LawPartsStartWithDash", "EmitSplit"],
         "xtool/safesplit", "TestVerifC17PkgSplit", neg_pkg_split, cls_pkg_split, cost=3)
-    add("pkg-roundtrip-2x3", "PkgConfigSplit", shell("roundtrip", maxargs=2, arglen=3, prune=5, mod=3), ["LawRoundTrip", "EmitRoundTrip"],
+    add("pkg-roundtrip-2x3", "PkgConfigSplit", shell("roundtrip", maxargs=2, arglen=3, prune=5, mod=5), ["LawRoundTrip", "EmitRoundTrip"],
         "xtool/safesplit", "TestVerifC17PkgRoundTrip", neg_pkg_rt, cls_pkg_rt, cost=2)
     add("tags-legacy-2x3", "TagExpr", tag("legacy", opts=2, terms=3, prune=4, mod=3), ["LawLegacyIsDNF", "EmitLegacy"],
         "internal/buildtags", "TestVerifC17Legacy", neg_legacy, cls_tags, cost=2)
@@ -233,7 +238,7 @@ def suites(tier, sd):
         "internal/buildtags", "TestVerifC17GoBuild", neg_gobuild, cls_tags, real=False)
     add("tags-flag", "TagExpr", tag("tagsflag", flags=3, val=2, prune=2, mod=8), ["LawSpelling", "EmitTagsFlag"],
         "internal/buildtags", "TestVerifC17TagsFlag", neg_tagsflag, cls_tags, cost=2)
-    add("expand-brace", "Expand", exp("brace", 4, prune=2, mod=4), ["LawLiteralUntouched", "LawCompositional", "EmitBrace"],
+    add("expand-brace", "Expand", exp("brace", 4, prune=2, mod=6), ["LawLiteralUntouched", "LawCompositional", "EmitBrace"],
         "internal/env", "TestVerifC17Brace", neg_brace, cls_brace, cost=3)
     add("expand-dollar", "Expand", exp("dollar", 3 if th else 2), ["LawLiteralUntouched", "EmitDollar"],
         "xtool/env", "TestVerifC17Dollar", neg_dollar, cls_dollar, post=lambda cs: thin_dollar(cs, th, sd))
@@ -424,14 +429,25 @@ def check(chk):
             groups.setdefault(key, []).append((desc, name, m))
         if r["cases"]:
             chk.sample({"suite": name, "case": r["cases"][(sd * 7919) % n]}, limit=len(S))
+    # defect classes: one finding per class; disagreements outside every class: the 5 smallest inputs per suite and kind
+    singles = {}
     for key, ms in sorted(groups.items()):
-        ms.sort(key=lambda dm: (len(json.dumps(dm[2])), json.dumps(dm[2], sort_keys=True)))
-        by_suite = {}
-        for _, name, _m in ms:
-            by_suite[name] = by_suite.get(name, 0) + 1
-        chk.reject(key, "%s  [%d cases: %s]" % (ms[0][0], len(ms), ", ".join("%s %d" % kv for kv in sorted(by_suite.items()))),
-                   {"count": len(ms), "by_suite": by_suite,
-                    "smallest_examples": [dict(m, suite=name) for _, name, m in ms[:12]]})
+        if key in CLASS_KEYS:
+            ms.sort(key=lambda dm: (len(json.dumps(dm[2])), json.dumps(dm[2], sort_keys=True)))
+            by_suite = {}
+            for _, name, _m in ms:
+                by_suite[name] = by_suite.get(name, 0) + 1
+            chk.reject(key, "%s  [%d cases: %s]" % (ms[0][0], len(ms), ", ".join("%s %d" % kv for kv in sorted(by_suite.items()))),
+                       {"count": len(ms), "by_suite": by_suite,
+                        "smallest_examples": [dict(m, suite=name) for _, name, m in ms[:12]]})
+        else:
+            for desc, name, m in ms:
+                singles.setdefault((name, m["kind"]), []).append((key, desc, m))
+    for (name, kind), ms in sorted(singles.items()):
+        ms.sort(key=lambda kdm: (len(json.dumps(kdm[2])), json.dumps(kdm[2], sort_keys=True)))
+        for key, desc, m in ms[:5]:
+            chk.reject(key, "%s  [one of %d disagreements of kind %s in suite %s]" % (desc, len(ms), kind, name),
+                       dict(m, suite=name, disagreements_of_this_kind=len(ms)))
     chk.cov["suites"] = per_suite
     chk.cov["exhaustive"] = thorough
     chk.cov["rule"] = (
